@@ -306,7 +306,13 @@ def gen_transformation(rng: Random, kind: str | None = None, idx: int = 0, depth
     t: dict[str, Any]
     if kind == "field_name_mapping":
         fs = rng.sample(FIELDS, rng.randint(1, 3))
-        t = {"type": "field_name_mapping", "mapping": {f: f"{tag}m.{f.lower()}" for f in fs}}
+        if chance(rng, 0.3):  # several fields mapped to ONE name: items with duplicate keys afterwards
+            fs = rng.sample(FIELDS, rng.randint(2, 4))
+            t = {"type": "field_name_mapping", "mapping": {f: f"{tag}same" for f in fs}}
+        else:
+            t = {"type": "field_name_mapping", "mapping": {f: f"{tag}m.{f.lower()}" for f in fs}}
+    elif kind == "field_name_mapping_all_same":  # every field gets ONE name: duplicate keys afterwards
+        t = {"type": "field_name_mapping", "mapping": {f: f"{tag}same" for f in FIELDS}}
     elif kind == "field_name_mapping_1n":
         f = pick(rng, FIELDS)
         t = {"type": "field_name_mapping", "mapping": {f: [f"{tag}n1.{f}", f"{tag}n2.{f}"]}}
